@@ -229,6 +229,8 @@ class Models:
         R(["Iter as Iterator::next", "IntoIter as Iterator::next", "Values as Iterator::next",
            "Range as Iterator::next"], m_iter_next)
         R("Vec::retain", m_vec_retain)
+        R("Vec::dedup_by_key", m_vec_dedup_by_key)
+        R("Vec::dedup", m_vec_dedup)
         R("Vec as Clone::clone", lambda ex, st, fr, c, a, d, r: st.load(a[0]).clone())
         R("slice::contains", m_slice_contains)
         R("vec::from_elem", NotImplementedModel("from_elem"))
@@ -735,6 +737,62 @@ def m_vec_retain(ex, st, fr, c, a, d, r):
             return outs
         return ex.call_closure(s, closref, [elem_ref], tmp, s.frames[-1].bb, tag=after)
     return step(ex, st, 0)
+
+
+def _dedup_with_keys(ex, s, vref, keys, d, r):
+    """remove CONSECUTIVE elements whose key equals the key of the last kept element (std Vec::dedup*); the
+    comparisons are symbolic: fork on every adjacent pair"""
+    v = seq(s, vref)
+    n = len(v.elems)
+    outs = []
+
+    def go(s2, i, kept):
+        if i == n:
+            vv = seq(s2, vref)
+            vv.elems[:] = [vv.elems[j] for j in kept]
+            return ex.finish_call(s2, d, r, VUnit())
+        if not kept:
+            return go(s2, i + 1, [i])
+        same = keys[i].t == keys[kept[-1]].t
+        res = []
+        for cond, drop in ((same, True), (z3.Not(same), False)):
+            if not ex.feasible(s2.pc, cond):
+                continue
+            s3 = s2.clone()
+            s3.pc.append(cond)
+            res += go(s3, i + 1, kept if drop else kept + [i])
+        return res
+    return go(s, 0, [])
+
+
+def m_vec_dedup_by_key(ex, st, fr, c, a, d, r):
+    vref, clos = a[0], a[1]
+    n = len(seq(st, vref).elems)
+    closref = VRef(st.alloc(clos))
+    keycell = st.alloc(VVec([]))
+
+    def step(ex, s, i):
+        if i == n:
+            keys = [scalar(s, k) for k in s.cells[keycell].elems]
+            if not all(isinstance(k, (VInt, VSym, VBool)) for k in keys):
+                raise Unsupported("dedup_by_key with a non-scalar key")
+            return _dedup_with_keys(ex, s, vref, keys, d, r)
+        base = deref_ref(s, vref)
+        elem_ref = VRef(base.cell, base.path + (i,))
+        tmp = VRef(s.alloc(VUninit()))
+
+        def after(ex2, s2, rv, i=i):
+            s2.cells[keycell].elems.append(rv)
+            return step(ex2, s2, i + 1)
+        return ex.call_closure(s, closref, [elem_ref], tmp, s.frames[-1].bb, tag=after)
+    return step(ex, st, 0)
+
+
+def m_vec_dedup(ex, st, fr, c, a, d, r):
+    keys = [scalar(st, e) for e in seq(st, a[0]).elems]
+    if not all(isinstance(k, (VInt, VSym, VBool)) for k in keys):
+        raise Unsupported("Vec::dedup on non-scalar elements")
+    return _dedup_with_keys(ex, st, a[0], keys, d, r)
 
 
 def deref_ref(st, ref):
